@@ -52,7 +52,7 @@ ARMED = {
          "Trusts go/ssa; integer overflow is not modelled in the bounds analysis; os.File/Badger semantics.",
          "DESIGN.md §2 C04"),
  "C12": ("store→persist must-pass-through, must-hold lock dataflow, linear-form check of the stride comparison, provenance of load-time corrections",
-         "Static decision of necessary conditions of 'server-issued identifiers are unique and only move forward': every increment of the repo/version/instance id counters is under idMutex and persisted afterwards (R12.1); every store to the label counters is under mlMu and followed by its persist call (R12.2); mutation-id initialisation persists current+stride, allocation is under mutMu, renews the reservation whenever the advanced counter reaches the persisted bound (≥) and writes the new bound before returning (R12.3); load-time corrections raise the version counter above all known ids and the repo-wide max label to the largest per-version max (R12.5). Level 'other': schedule×crash interleavings of background max-label updates are not decided.",
+         "Static decision of necessary conditions of 'server-issued identifiers are unique and only move forward': every increment of the repo/version/instance id counters is under idMutex and persisted afterwards (R12.1); every store to the label counters is under mlMu, followed by its persist call, and decided on a counter value read inside that write-locked section (R12.2); mutation-id initialisation persists current+stride, allocation is under mutMu, renews the reservation whenever the advanced counter reaches the persisted bound (≥) and writes the new bound before returning (R12.3); load-time corrections only ever raise the id counters (guarded by a comparison with the loaded value), raise the version counter above all known ids and the repo-wide max label to the largest per-version max (R12.5). Level 'other': schedule×crash interleavings of background max-label updates are not decided.",
          "Trusts go/ssa; lock identity by field name; load/copy constructors are exceptions with reasons.",
          "DESIGN.md §2 C12"),
  "C01": ("SSA must-pass-through on feasible paths (SCCP under ctx.Versioned()), provenance of keys/versions, structural truth tables of the ancestry resolver",
